@@ -476,7 +476,7 @@ func main() {
 		fmt.Fprintln(os.Stderr, "c19: only 'run'")
 		os.Exit(2)
 	}
-	rng := lib.NewRng(f.Seed)
+	rng := lib.NewRng(f.Seed).Fork() // Fork hashes the state: streams of different seeds are unrelated, not shifted copies
 	cf := lib.NewCaseFile("C19", f.Seed, f.Tier)
 	cf.Imports = []string{"Joins"}
 	cf.CaseType = "c19_case"
